@@ -72,8 +72,13 @@ IrregularObs(o, i) == \/ (o.mon[i] = "Feb" /\ o.dd[i] >= 28) \/ (o.mon[i] = "Mar
                       \/ (o.mon[i] = "Dec" /\ o.dd[i] = 31) \/ (o.mon[i] = "Jan" /\ o.dd[i] = 1)
                       \/ (o.mi[i] = 0 /\ o.ss[i] = 0) \/ (o.mi[i] = 59 /\ o.ss[i] = 59)
 TimeFields == {"hour", "minute", "second"}
+\* every column has one entry per element (a malformed observation is rejected, it does not stop the run)
+DateShape(r, n) == LET o == r.obs IN
+  /\ Len(o.wd) = n /\ Len(o.dd) = n /\ Len(o.mon) = n /\ Len(o.yy) = n /\ Len(o.hh) = n /\ Len(o.mi) = n /\ Len(o.ss) = n
+  /\ Len(o.len) = n /\ Len(o.frame) = n /\ (r.scn.full = 1 => Len(o.chars) = n)
+  /\ (r.scn.kind = "ts-random" => (Len(o.day) = n /\ Len(o.sod) = n))
 JudgeDates(r) ==
-  LET n == r.obs.n
+  LET n == IF DateShape(r, r.obs.n) THEN r.obs.n ELSE -1
       want == DateCount(r.scn)
       bad == IF n = want THEN {i \in 1..n : DateField(r, i) # ""} ELSE {}
   IN IF n # want THEN [ok |-> FALSE, n |-> 0, first |-> 0, nt |-> 0,
@@ -108,18 +113,21 @@ DecField(L, bs) ==
   ELSE IF bs # DecBytes(L) THEN "value"                                   \* long division of the limbs
   ELSE IF DecToLimbs(ds) # [ok |-> TRUE, limbs |-> L] THEN "value"         \* Horner evaluation of the output
   ELSE ""
-\* hexized / hexized_bytes return 2*size_of::<usize>() = 16 digits, left-padded with '0' (the chunk-size writer and the
-\* crate's own test strip the padding): allowed = exactly the 16 lower-case nibbles of n, whose stripped form is the
-\* canonical hexadecimal of n
+\* hexized / hexized_bytes return [u8; 2*size_of::<usize>()] = 16 digits, left-padded with '0'; their callers (the
+\* chunk-size writer in ohkami/src/response/mod.rs, the crate's own test) strip the padding.  Allowed: exactly the 16
+\* lower-case nibbles of n (formulation 1: nibble extraction from the limbs); and the stripped output - what reaches
+\* the wire - is a canonical digit string that denotes n (formulation 2: Horner evaluation).  A canonical lower-case
+\* digit string denoting n is THE canonical hexadecimal of n (= HexCanonBytes(L), which MC_Fmt ties to the odometer).
 HexField(L, bs) ==
   LET ds == Vals(bs, HexVal) IN
   IF bs = <<-1>> THEN "panic"
   ELSE IF Len(bs) # 16 THEN "width"
   ELSE IF \E k \in 1..16 : ds[k] = -1 THEN (IF \E k \in 1..16 : bs[k] \in 65..70 THEN "upper-case" ELSE "non-digit")
   ELSE IF bs # HexFixedBytes(L) THEN "value"
-  ELSE IF Strip(bs, 48) # HexCanonBytes(L) \/ ~Canonical(Strip(ds, 0)) THEN "canonical"
-  ELSE IF HexToLimbs(ds) # [ok |-> TRUE, limbs |-> L] THEN "value"
-  ELSE ""
+  ELSE LET cs == Strip(ds, 0) IN
+       IF ~Canonical(cs) THEN "canonical"
+       ELSE IF HexToLimbs(cs) # [ok |-> TRUE, limbs |-> L] THEN "value"
+       ELSE ""
 NumField(r, i) ==
   LET L == LimbsAt(r, i) IN
   IF ~IsLimbs(L) THEN "input-out-of-range"
@@ -128,8 +136,9 @@ NumField(r, i) ==
 Base(fn) == IF fn = "itoa" THEN 10 ELSE 16
 NumClass(fn, L) == LET ds == IF fn = "itoa" THEN LimbsToDec(L) ELSE LimbsToHex(L)
                    IN DigitClass(ds, Base(fn) - 1) \o "/" \o ToString(Len(ds)) \o "-digits"
+NumShape(r, n) == Len(r.obs.out) = n /\ (r.scn.kind = "num-random" => Len(r.obs.vals) = n)
 JudgeNums(r) ==
-  LET n == r.obs.n
+  LET n == IF NumShape(r, r.obs.n) THEN r.obs.n ELSE -1
       want == NumCount(r.scn)
       fn == r.scn.fn
       bad == IF n = want THEN {i \in 1..n : NumField(r, i) # ""} ELSE {}
